@@ -214,6 +214,7 @@ type Checker struct {
 	avoidB  map[*ssa.BasicBlock]bool
 	targets map[*ssa.BasicBlock]bool
 	phiDepth int // recursion bound for φ-valued conditions
+	phiNest  int // nesting bound for φ of φ
 }
 
 // MaxHelperDepth bounds helper summarisation (quick 2 / thorough 4, set by the driver).
@@ -519,9 +520,31 @@ func (c *Checker) edgeEstablishes(from, to *ssa.BasicBlock, atoms []Atom) bool {
 // phiImplies: does the boolean φ having the value `want` imply one of the atoms? Every incoming value that can be
 // `want` must either be a comparison that matches an atom at that polarity, or arrive from a block that is itself
 // reached only through the atoms (the `A` of `A && B`, decided by the branch that leads to the evaluation of B).
-func (c *Checker) phiImplies(phi *ssa.Phi, want bool, atoms []Atom) bool {
+func (c *Checker) phiImplies(phi *ssa.Phi, want bool, atomsIn []Atom) bool {
 	n := 0
 	for i, e := range phi.Edges {
+		// atoms restricted by dominating requirements (With): the requirement must hold where this incoming value
+		// is computed; the atom is then used without it
+		atoms := make([]Atom, 0, len(atomsIn))
+		for _, a := range atomsIn {
+			if len(a.Req) == 0 || i >= len(phi.Block().Preds) {
+				atoms = append(atoms, a)
+				continue
+			}
+			okReq := true
+			for _, q := range a.Req {
+				sub := *c
+				sub.phiDepth = c.phiDepth + 1
+				if ok, _ := sub.MustPass(phi.Block().Preds[i], q); !ok {
+					okReq = false
+				}
+			}
+			if okReq {
+				b := a
+				b.Req = nil
+				atoms = append(atoms, b)
+			}
+		}
 		if k, ok := e.(*ssa.Const); ok && k.Value != nil && k.Value.Kind() == constant.Bool {
 			if constant.BoolVal(k.Value) != want {
 				continue // this edge cannot produce `want`
@@ -533,6 +556,26 @@ func (c *Checker) phiImplies(phi *ssa.Phi, want bool, atoms []Atom) bool {
 			if p, pol, ok := c.pred(e); ok {
 				for _, a := range atoms {
 					if len(a.Req) == 0 && a.matches(p, pol == want) {
+						covered = true
+					}
+				}
+			}
+			// nested and/or: the incoming value is itself a materialised boolean
+			if !covered {
+				if ev, epol := stripNot(e); ev != nil {
+					if inner, isPhi := ev.(*ssa.Phi); isPhi && isBool(inner) && inner != phi && c.phiNest < 4 {
+						sub := *c
+						sub.phiNest = c.phiNest + 1
+						if sub.phiImplies(inner, epol == want, atomsIn) {
+							covered = true
+						}
+					}
+				}
+			}
+			// the incoming value is decided by a helper: `a || k.helper(...)`
+			if !covered {
+				if call, isErr, hpol := c.helperCall(e); call != nil {
+					if c.helperImplies(call, isErr, hpol == want, atoms) {
 						covered = true
 					}
 				}
